@@ -219,10 +219,11 @@ example : pyIndices 5 ⟨none, none, some (-2)⟩ = some (4, -1, -2) := by decid
 
 /-! ### X-ray projector -/
 
-/-- with no negative bin index the two scatter-adds realise the documented two-bin matrix -/
-theorem C04_xray_matrix (np : Nat) (I : Nat → Int) (w x : V K) (ny : Nat) (hI : ∀ p, p < np → 0 ≤ I p)
+/-- the two scatter-adds realise the documented two-bin (boxcar) matrix for EVERY bin index: a bin that is off the
+    detector (negative or `≥ ny`) is dropped on its own, the other one is kept. -/
+theorem C04_xray_matrix (np : Nat) (I : Nat → Int) (w x : V K) (ny : Nat)
     (b : Nat) (hb : b < ny) : xrayProject np I w x ny b = mulVec (xrayMatrix I w) np x b :=
-  xray_eq_mulVec np I w x ny hI b hb
+  xray_eq_mulVec np I w x ny b hb
 
 /-- mass conservation in a view: `Σ_bins y = Σ_pixels x` whenever all `I` and `I+1` lie on the detector -/
 theorem C04_xray_mass (np : Nat) (I : Nat → Int) (w x : V K) (ny : Nat)
@@ -235,15 +236,18 @@ theorem C04_xray_mass_fails_off_detector :
     sumTo 1 (xrayProject (α := ℚ) 1 (fun _ => 0) (fun _ => 1 / 2) (fun _ => 1) 1) ≠ sumTo 1 (fun _ => (1 : ℚ)) := by
   simp [sumTo, xrayProject, fixNeg]
 
-/-- negation witness for the code as it is (known finding `xray-left-edge-drop`, recorded): a pixel whose first bin
-    is `−1` (its boxcar straddles the left detector edge) contributes NOTHING — `inds < 0` is replaced by `ny`
-    before `inds + 1` is formed — although the documented two-bin matrix gives bin `0` the share `1 − w`.  (At the
-    right edge a pixel whose second bin is off the detector does keep its share `w` in the last bin.) -/
-theorem C04_xray_left_edge_fails :
-    xrayProject (α := ℚ) 1 (fun _ => -1) (fun _ => 1 / 2) (fun _ => 1) 2 0
-      ≠ mulVec (xrayMatrix (fun _ => -1) (fun _ => (1 / 2 : ℚ))) 1 (fun _ => 1) 0 := by
-  simp [xrayProject, xrayMatrix, mulVec, sumTo, fixNeg]
-  norm_num
+/-- record of the defect repaired in e359064 (`xray-left-edge-drop`, found by this engine): the earlier scatter replaced
+    a negative first bin by `ny` BEFORE forming `inds + 1`, so a pixel whose first bin is `−1` (its boxcar straddles the
+    left detector edge) contributed nothing, although the documented matrix gives bin `0` the share `1 − w`. -/
+theorem C04_xray_left_edge_old_form :
+    xrayProjectCoupled (α := ℚ) 1 (fun _ => -1) (fun _ => 1 / 2) (fun _ => 1) 2 0
+      ≠ mulVec (xrayMatrix (fun _ => -1) (fun _ => (1 / 2 : ℚ))) 1 (fun _ => 1) 0
+    ∧ xrayProject (α := ℚ) 1 (fun _ => -1) (fun _ => 1 / 2) (fun _ => 1) 2 0 = 1 / 2 := by
+  constructor
+  · simp [xrayProjectCoupled, xrayMatrix, mulVec, sumTo, fixNeg]
+    norm_num
+  · simp [xrayProject, sumTo, fixNeg]
+    norm_num
 
 example : ∀ p : Nat, p < 2 → (0 : Int) ≤ (fun p : Nat => (p : Int)) p ∧ (fun p : Nat => (p : Int)) p + 1 < (3 : Nat) := by
   intro p hp; simp only; omega
